@@ -577,7 +577,7 @@ class C06(core.Property):
     thorough_cases = 60000
     case_timeout_s = 20
     pool_workers = 1        # a case takes about a millisecond: the fork pool cost far more than it saved
-    rule = ("fault plans of 1-5 faults (crash, pause, partition sym/asym, +latency, +loss, capacity factor) on 1-3 workers, "
+    rule = ("fault plans of 1-5 faults (crash, pause, partition sym/asym with 15% overlapping or duplicate-naming group lists, +latency, +loss, capacity factor) on 1-3 workers, "
             "the Network entity and one Resource; windows shaped relative to earlier ones (identical, nested, containing, "
             "staggered, disjoint, same start, same end, abutting, zero length, permanent crash), 15% cancelled handles (before "
             "the run or at a time before the start); 0-4 generator jobs of 1-6 ops (sleep, emit, wait/resolve future, "
@@ -739,6 +739,16 @@ class C06(core.Property):
                 B = B[:1] if len(B) > 1 else B
             if rng.random() < 0.5:
                 A, B = B, A
+            if rng.random() < 0.15:
+                # group lists that are not disjoint, or that name a node twice: the same pair is then produced
+                # more than once by the nested loop of Network.partition(), and a handle holds ONE reference on it
+                mode = rng.randrange(3)
+                if mode == 0:
+                    A = B = sorted(ws)               # "cut all these nodes off from each other"
+                elif mode == 1:
+                    B = sorted(set(B) | {A[0]})
+                else:
+                    A = A + [A[0]]
             f.update(A=A, B=B, asym=int(rng.random() < 0.35))
         elif k in ("lat", "loss"):
             if rng.random() < 0.7:
